@@ -35,13 +35,14 @@ Definition in_wait (m : machine) (c : core) : Prop :=
 (* ---------------------------------------------------------------- guards *)
 Definition core_wf (c : core_st) : Prop := 0 <= cs_state c < 256 /\ 0 <= cs_app c < 256.
 
-(* a machine as the loader expects it: distinct chips, vcpu fields are bytes, the vcpu blocks do not
-   overlap the two sv words, the buffer holds between one and 256 words *)
+(* a machine as the loader expects it: distinct chips, vcpu fields are bytes, the vcpu blocks of each chip (their base
+   may differ from chip to chip) do not overlap the two sv words, the buffer holds between one and 256 words *)
 Definition machine_wf (m : machine) : Prop :=
   NoDup (map fst (m_chips m))
   /\ (forall c s, core_at m c = Some s -> core_wf s)
-  /\ (m_vcpu m + VCPU_SIZE * N_CORES <= SV_BASE \/ SV_BASE + 256 <= m_vcpu m)
-  /\ 0 <= m_vcpu m < 2 ^ 32 /\ 0 <= m_base m < 2 ^ 32
+  /\ (forall xy, In xy (map fst (m_chips m)) ->
+        m_vcpu m xy + VCPU_SIZE * N_CORES <= SV_BASE \/ SV_BASE + 256 <= m_vcpu m xy)
+  /\ (forall xy, In xy (map fst (m_chips m)) -> 0 <= m_vcpu m xy < 2 ^ 32) /\ 0 <= m_base m < 2 ^ 32
   /\ 4 <= m_buffer m <= 1024 /\ m_buffer m mod 4 = 0.
 
 (* the binaries are whole words and need at most 255 blocks *)
@@ -137,7 +138,7 @@ Fixpoint fills_ok (buffer base : Z) (bins : list (list Z)) (am : appmap) (ps : l
 (* the machine has a chip to talk to, its vcpu blocks lie in the 32-bit address space, every core is in
    a state that rig's AppState enumeration knows *)
 Definition machine_answers (m : machine) : Prop :=
-  m_chips m <> [] /\ m_vcpu m + VCPU_SIZE * N_CORES <= 2 ^ 32
+  m_chips m <> [] /\ (forall xy, In xy (map fst (m_chips m)) -> m_vcpu m xy + VCPU_SIZE * N_CORES <= 2 ^ 32)
   /\ (forall c s, core_at m c = Some s -> is_member (cs_state s) AppState_members = true).
 
 (* the files exist and fit the address space at the load address; the requested chips exist *)
